@@ -70,7 +70,24 @@ def analyze(s, reencode=True, stereo=True):
     try:
         m_in = R.read_smiles(s)
     except R.SmilesSyntaxError as e:
-        return [('skip', 'oracle rejects input: %s' % e.reason)]
+        # the independent reader rejects the input: nothing to compare molecules with, but whatever the encoder
+        # returns for it must still be decodable and stable (C10 speaks about every accepted SMILES)
+        try:
+            sel = sf.encoder(s)
+        except sf.EncoderError:
+            return [('skip', 'oracle and encoder both reject the input: %s' % e.reason)]
+        try:
+            smi = sf.decoder(sel)
+        except Exception as e2:
+            return [('C10:decodable', 'decoder raised %s on encoder output %r (input %r)' % (type(e2).__name__, sel, s))]
+        if reencode:
+            try:
+                sel2 = sf.encoder(smi)
+                if sel2 != sel:
+                    return [('C10:stable', 'encoder(decoder(x)) = %r != x = %r (via %r)' % (sel2, sel, smi))]
+            except sf.EncoderError:
+                return [('C10:stable', 're-encoding %r raised EncoderError' % smi)]
+        return [('skip', 'oracle rejects input (encoder output decodable and stable): %s' % e.reason)]
     kek = kekulizable(m_in) if any(a.aromatic for a in m_in.atoms) else None
     try:
         sel = sf.encoder(s)
